@@ -65,13 +65,11 @@ class AbsReq:
 def gen_absreq(rng, big=False):
     r = AbsReq()
     r.method = rng.choice([b"GET", b"POST", b"PUT", b"DELETE", b"X-custom!", b"get"])
-    r.script = rng.choice([b"/s", b"/s", b"/a", b"/a", b"/f", b"/other", b""])
+    r.script = rng.choice([b"/s", b"/s", b"/a", b"/a", b"/f", b"/f", b""])
     n = rng.choice([0, 1, 3, 8, 30])
     r.path = b"/" + rand_text(rng, n) if (n or r.script == b"" or rng.random() < 0.7) else b""
     if r.script == b"" and r.path[:2] in (b"/s", b"/a", b"/f") and (len(r.path) == 2 or r.path[2:3] == b"/"):
         r.path = b"/x" + r.path
-    if r.script == b"" and r.path.startswith(b"/other") and (len(r.path) == 6 or r.path[6:7] == b"/"):
-        pass
     if rng.random() < 0.8:
         for _ in range(rng.choice([0, 1, 2, 5])):
             k = rand_text(rng, rng.choice([1, 2, 6]))
@@ -140,7 +138,8 @@ def cgi_pairs(r, q, ck, rng):
 
 
 def http_request(r, q, ck, rng):
-    uri = r.script + urlenc(r.path, rng, 0.15)
+    # the path is empty or '/'-rooted; its first '/' stays literal (URI root / script name boundary)
+    uri = r.script + (b"/" + urlenc(r.path[1:], rng, 0.15) if r.path.startswith(b"/") else urlenc(r.path, rng, 0.15))
     if q or rng.random() < 0.2:
         uri += b"?" + q
     hs = []
